@@ -82,6 +82,21 @@ def gen_project(rng, pi):
             abs_imports.insert(0, os.path.join(os.path.dirname(name), "nowhere.ucg"))
         files[name] = {"text": "\n".join(lines) + "\n", "imports": imports, "raw_imports": abs_imports, "outs": outs, "fail": fail, "kind": kind}
         names.append(name)
+    if rng.random() < 0.2:
+        # an import that is only reachable statically (inside a function that is never called): the link step still looks at it
+        libs = [nm for nm in names if files[nm]["kind"] in ("lib", "both", "entry")]
+        broken = [nm for nm in names if files[nm]["fail"] in ("parse", "static")]
+        if libs:
+            L = rng.choice(libs)
+            B = None
+            if broken and rng.random() < 0.7:
+                B = rng.choice(broken)
+                rel = os.path.relpath(B, os.path.dirname(L) or ".")
+            else:
+                rel = "not_there.ucg"
+            if files[L]["text"].count(rel) == 0 and L != B:
+                files[L]["text"] += 'let lazy = func () => import "%s";\n' % rel
+                files[L]["dead_import"] = rel
     if rng.random() < 0.12 and len(names) >= 2:
         # plant a cycle: an early file imports a later one (which may or may not lead back to it)
         a, b = sorted(rng.sample(range(len(names)), 2))
@@ -287,7 +302,7 @@ def run(tier, seed):
     else:
         lines, meta = [], []
         for (d, files, built, perms, _), (res, runs) in zip(jobs, results):
-            if "obs" not in res or any(f["fail"] in ("static", "parse") for f in files.values()):
+            if "obs" not in res or any(f["fail"] in ("static", "parse") or f.get("dead_import") for f in files.values()):
                 continue
             proj = "(" + " ".join("(%s (%s) %d %d)" % (C.hexs(os.path.join(d, nm)), " ".join(C.hexs(os.path.join(d, i)) for i in f["raw_imports"]),
                                                        f["outs"], 1 if f["fail"] else 0) for nm, f in files.items()) + ")"
@@ -323,7 +338,7 @@ def run(tier, seed):
     cov["evaluations"] = total_runs
     cov["distinct_nontrivial"] = nproj
     cov["rule"] = ("generated projects of 2..6 files (entry files with out json/yaml/toml/env/flags, shared libraries, files that are both built "
-                   "and imported, files failing at parse / type-check / run time, before or after their out statement; imports spelled with "
+                   "and imported, files failing at parse / type-check / run time, before or after their out statement; imports reachable only statically (in a function never called) of broken or missing files; imports spelled with "
                    "./ and sub/../; sometimes a file named twice); each file built alone in a fresh process; then `ucg build f1 .. fn` in every "
                    "order up to 4 files (random orders beyond), every 2-file sub-batch, each invocation run twice, and `ucg build -r .`; per-file "
                    "success/failure, exit status and every artifact's bytes must equal the stand-alone builds")
